@@ -7,7 +7,7 @@ from .c07 import mk
 from .decoders import mutate, mutation_specs, run_decoder, template_sd, template_someip
 
 PROPERTY = "C20"
-BUDGET_S = {"quick": 900, "thorough": 3400}
+BUDGET_S = {"quick": 900, "thorough": 7200}
 STUBS = ["struct/bytes/bytearray/b''.join/enum lowering", "option registry: equality-scan dict", "SymIP for addresses from symbolic bytes"]
 ASSUMPTIONS = [
     "accepted inputs reachable as: fully symbolic small buffers (every byte free, so every reserved byte, flag bit, type, protocol number, index and count is covered up to the stated sizes) and templates from the independent writer with symbolic windows (non-zero reserved bytes, option tails, unknown types, unreferenced options, zero-count indexes)",
